@@ -113,6 +113,12 @@ class Query:
             cmd += ["--no-standard-checks"]
         elif self.checks == "mem":
             cmd += ["--no-signed-overflow-check", "--no-undefined-shift-check", "--no-div-by-zero-check"]
+        elif self.checks == "bounds":
+            # array-bounds checks only: used where the code under test forms an out-of-object pointer by design
+            # (varintAdaptiveDecode hands its dict/bitmap decoders a fixed 1 MiB length), after which CBMC reports every
+            # later property as UNKNOWN
+            cmd += ["--no-pointer-check", "--no-pointer-primitive-check", "--no-signed-overflow-check", "--no-undefined-shift-check",
+                    "--no-div-by-zero-check"]
         elif self.checks == "all":
             pass
         cmd += self.extra
@@ -216,6 +222,10 @@ def classify(prop_id, desc):
         return "libassert"       # an assert() inside the library (non-NDEBUG config)
     if cls in ("unwind", "recursion"):
         return "unwind"
+    if desc.startswith("pointer relation:") or cls == "pointer_arithmetic":
+        # comparing / forming a pointer outside its object without dereferencing it (standard-level UB that no
+        # sanitizer observes, e.g. end = buffer + declared_length): recorded as an advisory, never decides a check
+        return "advisory"
     if cls in MEM_CLASSES:
         return "mem"
     if cls in UB_CLASSES:
@@ -488,6 +498,8 @@ def _run_query(q, replay_dir, prop_id, r, gbdir):
             continue
         if p["status"] == "SUCCESS":
             r["n_ok"] += 1
+        elif p["class"] == "advisory":
+            r.setdefault("advisories", []).append({"id": p["id"], "desc": p["desc"], "status": p["status"]})
         elif p["status"] == "FAILURE":
             fails.append(p)
         else:
@@ -496,7 +508,8 @@ def _run_query(q, replay_dir, prop_id, r, gbdir):
         r["verdict"] = "inconclusive"; r["why"] = "harness has no VP_REACH witness"
         return r
     if not fails and unknown:
-        r["verdict"] = "inconclusive"; r["why"] = "%d properties UNKNOWN without a failure" % len(unknown)
+        r["verdict"] = "inconclusive"
+        r["why"] = "%d properties UNKNOWN without a deciding failure%s" % (len(unknown), " (after advisory: %s)" % r["advisories"][0]["desc"][:80] if r.get("advisories") else "")
         return r
     if not fails:
         if not r["reach"]:
